@@ -29,12 +29,13 @@ static const char *LOOP = "127.0.0.1";
 static const quint32 MAGIC = 0x2112A442;
 
 // ---------------------------------------------------------------------------------------------- harness sockets
-static QUdpSocket *gSock[4];                 // honest peer candidates (ids 1, 2), attacker (ids 8, 9)
-static const int gSockId[4] = { 1, 2, 8, 9 };
+static const int NSOCK = 6;
+static QUdpSocket *gSock[NSOCK];             // honest peer candidates (ids 1, 2), attacker (ids 8, 9), STUN servers (ids 5, 6)
+static const int gSockId[NSOCK] = { 1, 2, 8, 9, 5, 6 };
 static QUdpSocket *gMarker;
 
-static int sockIndexOfId(int id) { for (int i = 0; i < 4; i++) if (gSockId[i] == id) return i; return -1; }
-static int idOfPort(quint16 port) { for (int i = 0; i < 4; i++) if (gSock[i]->localPort() == port) return gSockId[i]; return 0; }
+static int sockIndexOfId(int id) { for (int i = 0; i < NSOCK; i++) if (gSockId[i] == id) return i; return -1; }
+static int idOfPort(quint16 port) { for (int i = 0; i < NSOCK; i++) if (gSock[i]->localPort() == port) return gSockId[i]; return 0; }
 static quint16 portOfId(int id) { int i = sockIndexOfId(id); return i < 0 ? 0 : gSock[i]->localPort(); }
 
 static QByteArray fakeTxid(unsigned long long n)
@@ -81,11 +82,12 @@ struct Dg {
     char role = 'n';                 // n none, g controlling, d controlled
     unsigned long long prio = 0;
     int user = 0;                    // 0 none, 1 the right "<local>:<remote>" name, 2 something else
+    int mapped = 0;                  // > 0: XOR-MAPPED-ADDRESS of a response = synthetic address 10.0.0.<mapped> port 4000+<mapped>
     std::string str() const
     {
         if (app) return "dg " + std::to_string(src) + " app " + (payload.isEmpty() ? std::string("-") : std::string(payload.toHex().constData()));
         return "dg " + std::to_string(src) + " " + cls + " " + method + " " + std::to_string(txid) + " " + mi + " " + (uc ? "1" : "0") + " " +
-            role + " " + std::to_string(prio) + " " + std::to_string(user);
+            role + " " + std::to_string(prio) + " " + std::to_string(user) + (mapped > 0 ? " m" + std::to_string(mapped) : std::string());
     }
     std::vector<std::string> tokens() const
     {
@@ -102,7 +104,7 @@ struct Dg {
     {
         for (const auto &t : tokens()) {
             if (t == "fp" || t == "fpbad" || t == "sw") return "abs";
-            if (t == "loc" || t == "rem" || t == "bad" || t == "trunc") return t;
+            if (t == "loc" || t == "rem" || t == "bad" || t == "trunc" || t == "old") return t;
         }
         return "abs";
     }
@@ -113,23 +115,26 @@ struct Dg {
 static void setLen(QByteArray &b, int body) { b[2] = char(body >> 8); b[3] = char(body & 0xff); }
 static void putAttrHeader(QByteArray &b, int type, int len) { b.append(char(type >> 8)); b.append(char(type & 0xff)); b.append(char(len >> 8)); b.append(char(len & 0xff)); }
 
-struct Creds { QString localUser, localPw, remoteUser, remotePw; };
+struct Creds { QString localUser, localPw, remoteUser, remotePw, oldRemotePw = QStringLiteral("never-was-the-remote-password"); };
 
-static QByteArray forge(const Dg &d, const Creds &c, const QList<QByteArray> &victimTx, const QHostAddress &vHost, quint16 vPort, Rng &rng)
+static QByteArray forge(const Dg &d, const Creds &c, const QList<QByteArray> &victimTx, const QHostAddress &vHost, quint16 vPort, Rng &rng,
+                        const QList<QByteArray> &serverTx = QList<QByteArray>())
 {
     if (d.app) return d.payload;
     QXmppStunMessage m;
     int cls = d.cls == "req" ? QXmppStunMessage::Request : d.cls == "ind" ? QXmppStunMessage::Indication
             : d.cls == "rsp" ? QXmppStunMessage::Response : QXmppStunMessage::Error;
     m.setType(quint16((d.method == 'b' ? int(QXmppStunMessage::Binding) : int(QXmppStunMessage::Allocate)) | cls));
-    m.setId(d.txid < 1000 && (long long)d.txid < victimTx.size() ? victimTx[int(d.txid)] : fakeTxid(d.txid));
+    if (d.txid >= 500 && d.txid < 600 && (long long)(d.txid - 500) < serverTx.size() && !serverTx[int(d.txid - 500)].isEmpty()) m.setId(serverTx[int(d.txid - 500)]);
+    else m.setId(d.txid < 500 && (long long)d.txid < victimTx.size() ? victimTx[int(d.txid)] : fakeTxid(d.txid));
     if (d.cls == "req" || d.cls == "ind") {
         m.setPriority(quint32(d.prio));
         m.useCandidate = d.uc;
         if (d.role == 'g') m.iceControlling = QByteArray::fromHex("0102030405060708");
         if (d.role == 'd') m.iceControlled = QByteArray::fromHex("1112131415161718");
     } else {
-        m.xorMappedHost = vHost; m.xorMappedPort = vPort;
+        if (d.mapped > 0) { m.xorMappedHost = QHostAddress(QStringLiteral("10.0.0.%1").arg(d.mapped)); m.xorMappedPort = quint16(4000 + d.mapped); }
+        else { m.xorMappedHost = vHost; m.xorMappedPort = vPort; }
         if (d.cls == "err") { m.errorCode = 487; m.errorPhrase = QStringLiteral("Role Conflict"); }
     }
     if (d.user == 1) m.setUsername(c.localUser + QLatin1Char(':') + c.remoteUser);
@@ -154,7 +159,7 @@ static QByteArray forge(const Dg &d, const Creds &c, const QList<QByteArray> &vi
             putAttrHeader(b, 0x8028, 4);
             for (int k = 3; k >= 0; k--) b.append(char((crc >> (8 * k)) & 0xff));
         } else {
-            QByteArray key = t == "loc" ? c.localPw.toUtf8() : t == "rem" ? c.remotePw.toUtf8()
+            QByteArray key = t == "loc" ? c.localPw.toUtf8() : t == "rem" ? c.remotePw.toUtf8() : t == "old" ? c.oldRemotePw.toUtf8()
                            : (rng.coin() ? QByteArray("not-the-session-password") : c.localPw.toUtf8() + "x");
             if (t == "trunc") key = (d.cls == "req" || d.cls == "ind") ? c.localPw.toUtf8() : c.remotePw.toUtf8();   // right key, only the length is wrong
             QByteArray copy = b; setLen(copy, b.size() - 20 + 24);
@@ -180,17 +185,23 @@ struct Agent {
     QList<quint16> ports;
     // events since the last clear
     bool accepted = false;
-    QStringList warns, ps, sel, otherLogs;
+    QStringList warns, ps, sel, otherLogs, localCands;
+    bool gatheringComplete = false;
     int sig = 0;
     QList<QByteArray> app;
     long long markersSeen = 0;   // highest marker number that came back
     long long logCount = 0;
     std::function<int(quint16)> portToId = idOfPort;
 
-    Agent(bool controlling, int component, const QList<QHostAddress> &addrs)
+    Agent(bool controlling, int component, const QList<QHostAddress> &addrs, int nStun = 0)
         : compId(component), ctl(controlling)
     {
         conn = new QXmppIceConnection;
+        if (nStun > 0) {
+            QList<QPair<QHostAddress, quint16>> servers;
+            for (int k = 0; k < nStun; k++) servers.push_back({ QHostAddress(LOOP), gSock[4 + k]->localPort() });
+            conn->setStunServers(servers);
+        }
         QObject::connect(conn, &QXmppLoggable::logMessage, [this](QXmppLogger::MessageType t, const QString &s) { onLog(t, s); });
         conn->setIceControlling(controlling);
         conn->addComponent(component);
@@ -204,7 +215,7 @@ struct Agent {
     }
     ~Agent() { delete conn; }
     quint16 port() const { return ports.value(0); }
-    void clear() { accepted = false; warns.clear(); ps.clear(); sel.clear(); otherLogs.clear(); sig = 0; app.clear(); }
+    void clear() { localCands.clear(); gatheringComplete = false; accepted = false; warns.clear(); ps.clear(); sel.clear(); otherLogs.clear(); sig = 0; app.clear(); }
     void onLog(QXmppLogger::MessageType t, const QString &s)
     {
         logCount++;
@@ -212,7 +223,12 @@ struct Agent {
         static const QRegularExpression reSel(QStringLiteral("^ICE pair selected (\\S+) port (\\d+) .*\\(priority: (\\d+)\\)"));
         if (t == QXmppLogger::ReceivedMessage && s.startsWith(QLatin1String("STUN packet from"))) { accepted = true; return; }
         if (t == QXmppLogger::SentMessage) return;
-        if (t == QXmppLogger::DebugMessage) return;   // "Checking remote candidates", "ICE forward check failed …"
+        if (t == QXmppLogger::DebugMessage) {             // "Checking remote candidates", "ICE forward check failed …", "STUN test failed …"
+            static const QRegularExpression reSr(QStringLiteral("^Adding server-reflexive candidate \\S+ port (\\d+)"));
+            auto ms = reSr.match(s);
+            if (ms.hasMatch()) localCands << QString::number(ms.captured(1).toInt() - 4000);
+            return;
+        }
         auto m = rePs.match(s);
         if (m.hasMatch()) { ps << QString::number(portToId(m.captured(3).toUShort())) + QLatin1Char(':') + m.captured(1); return; }
         m = reSel.match(s);
@@ -222,12 +238,14 @@ struct Agent {
             else if (s == QLatin1String("Bad message integrity")) warns << QStringLiteral("mi");
             else if (s == QLatin1String("Bad fingerprint")) warns << QStringLiteral("fp");
             else if (s.startsWith(QLatin1String("Truncated STUN attribute"))) warns << QStringLiteral("ta");
+            else if (s.startsWith(QLatin1String("STUN server did not provide"))) warns << QStringLiteral("noref");
             else if (s.contains(QLatin1String("MESSAGE-INTEGRITY")) && s.contains(QLatin1String("missing"), Qt::CaseInsensitive)) warns << QStringLiteral("nomi");
             else if (s.startsWith(QLatin1String("Skipping "))) { /* decoder chatter printed only when decoding failed */ }
             else { warns << QStringLiteral("other"); if (getenv("C15_DEBUG")) fprintf(stderr, "WARN %s\n", qPrintable(s)); }
             return;
         }
-        if (s.startsWith(QLatin1String("ICE gathering state")) || s.startsWith(QLatin1String("ICE negotiation completed"))) return;
+        if (s.startsWith(QLatin1String("ICE gathering state"))) { if (s.endsWith(QLatin1String("to 'complete'"))) gatheringComplete = true; return; }
+        if (s.startsWith(QLatin1String("ICE negotiation completed"))) return;
         otherLogs << s.left(40);
     }
     // park every real timer of the component (interval timer and retransmission timers); they are driven explicitly in part 1
@@ -263,8 +281,15 @@ struct Victim {
     unsigned long long localPrio;
     std::map<int, unsigned long long> remotePrio;   // what we told it / what the PRIORITY attribute of the first request said
 
-    Victim(bool ctl, int comp, Rng &r) : ag(ctl, comp, { QHostAddress(LOOP) }), rng(r)
+    QList<QByteArray> stx;             // ids of its STUN-server discovery transactions, by server
+    bool closedNow = false;
+    int pwGeneration = 0;
+    std::set<int> legit;               // addresses signalled to it or from which an authenticated request was processed
+    int nStun = 0;
+
+    Victim(bool ctl, int comp, Rng &r, int stunServers = 0) : ag(ctl, comp, { QHostAddress(LOOP) }, stunServers), rng(r), nStun(stunServers)
     {
+        for (int k = 0; k < stunServers; k++) stx << QByteArray();
         creds.localUser = ag.conn->localUser(); creds.localPw = ag.conn->localPassword();
         creds.remoteUser = QStringLiteral("peer"); creds.remotePw = QStringLiteral("peer-password-0123456789");
         // advertised candidate priority must be the RFC one (host candidates, local preference 65535)
@@ -283,6 +308,7 @@ struct Victim {
         Seen seen;
         int idle = 0;
         auto barrier = [&]() {
+            if (closedNow) { pump(6); return; }   // its socket is closed: nothing comes back
             markerNo++;
             const long long want = markerNo;
             gMarker->writeDatagram(QByteArray("\xffMK") + QByteArray::number(markerNo), QHostAddress(LOOP), ag.port());
@@ -309,17 +335,27 @@ struct Victim {
     bool drain(Seen &seen)
     {
         bool any = false;
-        for (int i = 0; i < 4; i++) {
+        for (int i = 0; i < NSOCK; i++) {
             QUdpSocket *s = gSock[i];
             while (s->hasPendingDatagrams()) {
                 QByteArray b(int(s->pendingDatagramSize()), '\0');
                 QHostAddress h; quint16 p = 0;
                 s->readDatagram(b.data(), b.size(), &h, &p);
-                if (p != ag.port()) { stat("stray_datagram"); continue; }
+                // after close() a write re-opens the closed QUdpSocket: the datagram then comes from a fresh port
+                if (p != ag.port() && !closedNow) { stat("stray_datagram"); continue; }
                 any = true;
                 quint32 cookie = 0; QByteArray id;
                 quint16 type = QXmppStunMessage::peekType(b, cookie, id);
                 const QString to = QString::number(gSockId[i]);
+                if (gSockId[i] == 5 || gSockId[i] == 6) {
+                    // discovery request to a STUN server: plain Binding request, no credentials
+                    QXmppStunMessage sm;
+                    const int k = gSockId[i] - 5;
+                    if (type == (QXmppStunMessage::Binding | QXmppStunMessage::Request) && sm.decode(b) && k < stx.size()) {
+                        if (stx[k].isEmpty()) stx[k] = sm.id(); else stat("server_retransmissions_seen");
+                    } else stat("unexpected_datagram_at_stun_server");
+                    continue;
+                }
                 if (!type || cookie != MAGIC) { seen.t << to + QLatin1Char(':') + (b.isEmpty() ? QStringLiteral("-") : QString::fromLatin1(b.toHex())); continue; }
                 QXmppStunMessage m;
                 if (type == (QXmppStunMessage::Binding | QXmppStunMessage::Request)) {
@@ -355,11 +391,11 @@ struct Victim {
 
     std::string observe(const Seen &seen)
     {
-        QString o = QStringLiteral("a=%1 w=%2 r=%3 c=%4 p=%5 s=%6 k=%7 C=%8 d=%9 t=%10")
+        QString o = QStringLiteral("a=%1 w=%2 r=%3 c=%4 p=%5 s=%6 k=%7 C=%8 d=%9 t=%10 l=%11 g=%12")
                         .arg(ag.accepted ? 1 : 0).arg(joinOr(ag.warns), joinOr(seen.r), joinOr(seen.c), joinOr(ag.ps), joinOr(ag.sel))
                         .arg(ag.sig).arg(ag.comp->isConnected() ? 1 : 0);
         QStringList d; for (const auto &b : ag.app) d << (b.isEmpty() ? QStringLiteral("-") : QString::fromLatin1(b.toHex()));
-        o = o.arg(joinOr(d), joinOr(seen.t));
+        o = o.arg(joinOr(d), joinOr(seen.t), joinOr(ag.localCands)).arg(ag.gatheringComplete ? 1 : 0);
         if (!ag.otherLogs.isEmpty()) o += QStringLiteral(" unexpected-log=") + ag.otherLogs.join(QLatin1Char('|')).replace(QLatin1Char(' '), QLatin1Char('_'));
         return o.toStdString();
     }
@@ -379,6 +415,11 @@ struct Victim {
             ag.conn->setRemoteUser(creds.remoteUser); credsSet = true;
         } else if (w[0] == "rpass") {
             ag.conn->setRemotePassword(creds.remotePw); pwSet = true;
+        } else if (w[0] == "rpass2") {
+            creds.oldRemotePw = creds.remotePw; creds.remotePw = QStringLiteral("replaced-peer-password-%1").arg(++pwGeneration);   // every replacement is a NEW value
+            ag.conn->setRemotePassword(creds.remotePw); pwSet = true;
+        } else if (w[0] == "close") {
+            ag.conn->close(); closedNow = true;
         } else if (w[0] == "rtx") {
             const int k = atoi(w[1].c_str());
             reportRetransmits = true;
@@ -391,6 +432,7 @@ struct Victim {
             c.setPriority(int(quint32(strtoull(w[2].c_str(), nullptr, 10)))); c.setProtocol(QStringLiteral("udp"));
             c.setType(QXmppJingleCandidate::HostType); c.setId(QStringLiteral("c") + QString::fromStdString(w[1]));
             ag.conn->addRemoteCandidate(c);
+            legit.insert(atoi(w[1].c_str()));
             if (!remotePrio.count(atoi(w[1].c_str()))) remotePrio[atoi(w[1].c_str())] = strtoull(w[2].c_str(), nullptr, 10);
         } else if (w[0] == "connect") {
             ag.conn->connectToHost();
@@ -414,7 +456,7 @@ struct Victim {
             if (ag.comp->sendDatagram(p) < 0) sendResult = "noroute";
         } else if (w[0] == "dg" && dg) {
             printf("I %s\n", history.c_str()); fflush(stdout);
-            QByteArray bytes = forge(*dg, creds, vtx, QHostAddress(LOOP), ag.port(), rng);
+            QByteArray bytes = forge(*dg, creds, vtx, QHostAddress(LOOP), ag.port(), rng, stx);
             gSock[sockIndexOfId(dg->src)]->writeDatagram(bytes, QHostAddress(LOOP), ag.port());
             if (!dg->app && dg->cls == "req" && !remotePrio.count(dg->src)) pendingPrio = dg->prio; else pendingPrio = ~0ull;
         }
@@ -427,6 +469,23 @@ struct Victim {
         // ---- oracle: no reaction to anything that does not prove knowledge of the session credentials
         const bool reaction = !seen.r.isEmpty() || !seen.c.isEmpty() || !ag.ps.isEmpty() || !ag.sel.isEmpty() || ag.sig > 0 ||
             ag.comp->isConnected() != wasConnected;
+        // ---- oracle: application data is only ever written to an address that was signalled or that sent an authenticated request
+        for (const auto &t : seen.t) {
+            if (t == QLatin1String("noroute")) continue;
+            const int to = t.section(QLatin1Char(':'), 0, 0).toInt();
+            if (legit.count(to)) oraclePass()++;
+            else oracleFail("C15:data-sent-to-unvalidated-address", history + " => " + observe(seen));
+        }
+        // ---- oracle: a learned server-reflexive candidate is advertised with the RFC priority (type preference 100)
+        if (!ag.localCands.isEmpty()) {
+            bool ok = false;
+            for (const auto &c : ag.comp->localCandidates())
+                if (c.type() == QXmppJingleCandidate::ServerReflexiveType) ok = (unsigned long long)(quint32)c.priority() == rfcCandidatePriority(100, 65535, ag.compId);
+            if (ok) oraclePass()++; else oracleFail("C15:candidate-priority-not-rfc", history + " (server-reflexive)");
+        }
+        const bool serverPath = dg && !dg->app && dg->txid >= 500 && dg->txid < 600 && (long long)(dg->txid - 500) < stx.size() && (!ag.localCands.isEmpty() || ag.gatheringComplete);
+        if (serverPath && dg->src != 5 + int(dg->txid - 500)) stat("server_answer_from_foreign_address_accepted");
+        if (dg && !dg->app && closedNow && (reaction || ag.accepted)) oracleFail("C15:closed-component-reacts", history);
         if (dg && !dg->app) {
             stat("dg_" + dg->cls + "_" + dg->integrity()); if (!dg->plain()) stat("dg_odd_layout");
             const bool isRsp = dg->cls == "rsp" || dg->cls == "err";
@@ -442,12 +501,13 @@ struct Victim {
                     oracleFail(key, history + " => " + observe(seen));
                     stat("oracle_reaction_" + in + "_" + dg->cls);
                 }
-            } else if (reaction) stat("authentic_with_effect");
+            } else if (reaction) { stat("authentic_with_effect"); if (!seen.r.isEmpty()) legit.insert(dg->src); }
             // a learned peer-reflexive candidate takes the PRIORITY of the request that created it
             if (!seen.r.isEmpty() && pendingPrio != ~0ull && !remotePrio.count(dg->src)) remotePrio[dg->src] = pendingPrio;
         } else if (dg && dg->app) {
             if (reaction) oracleFail("C15:non-stun-datagram-has-effect", history);
-            else if (ag.app.size() == 1 && ag.app[0] == dg->payload) oraclePass()++;
+            else if (closedNow) { if (ag.app.isEmpty()) oraclePass()++; else oracleFail("C15:closed-component-reacts", history); }
+            else if (ag.app.size() == 1 && ag.app[0] == dg->payload) { oraclePass()++; if (!legit.count(dg->src)) stat("app_data_from_non_candidate_source_delivered"); }
             else oracleFail("C15:application-datagram-altered", history);
         }
         // ---- oracle: the priority of a selected pair is the RFC 5245 5.7.2 formula of the two candidate priorities
@@ -521,16 +581,45 @@ struct Victim {
             else oracleFail("C15:malformed-datagram-has-effect", rep);
         }
     }
+    // Datagrams that arrive THROUGH THE TURN ALLOCATION (the relay's Data indications / channel data are unwrapped by
+    // QXmppTurnAllocation and re-emitted as datagramReceived(data, peer address)): they enter the same handleDatagram with the
+    // relay as transport.  No TURN server is run here; the transport's signal is raised directly.  Unmodelled tail, oracle only:
+    // nothing without a valid protecting MESSAGE-INTEGRITY may be accepted on this path either.
+    void relayTail(int n)
+    {
+        auto *turn = ag.comp->findChild<QXmppTurnAllocation *>();
+        if (!turn || closedNow) return;
+        static const char *lays[] = { "-", "fp", "bad", "bad+fp", "trunc", "fp+loc", "fp+rem", "sw+loc", "rem", "loc" };
+        for (int i = 0; i < n; i++) {
+            ag.clear();
+            const bool wasConnected = ag.comp->isConnected();
+            Dg d = mk0(rng.coin() ? "req" : "rsp", "-", rng.coin() ? 9100 + rng.below(50) : (vtx.isEmpty() ? 1999 : (unsigned long long)(vtx.size() - 1)));
+            d.mi = lays[rng.below(10)]; d.uc = rng.coin(); d.prio = 1845493759ull;
+            const bool isRsp = d.cls == "rsp";
+            const bool auth = d.authentic() && (!isRsp || pwSet);
+            const QByteArray b = forge(d, creds, vtx, QHostAddress(LOOP), ag.port(), rng, stx);
+            printf("I relay %s after %s\n", d.str().c_str(), history.c_str()); fflush(stdout);
+            QMetaObject::invokeMethod(turn, "datagramReceived", Qt::DirectConnection, Q_ARG(QByteArray, b),
+                                      Q_ARG(QHostAddress, QHostAddress(QStringLiteral("10.9.9.9"))), Q_ARG(quint16, quint16(3999)));
+            pump(3); ag.parkTimers();
+            const bool reaction = ag.accepted || !ag.ps.isEmpty() || !ag.sel.isEmpty() || ag.sig > 0 || ag.comp->isConnected() != wasConnected;
+            stat("relay_injections");
+            if (auth) { stat(reaction ? "relay_authentic_accepted" : "relay_authentic_not_accepted"); if (reaction) return; }   // state now differs from the model: stop
+            else if (!reaction) oraclePass()++;
+            else oracleFail(d.integrity() == "abs" ? (isRsp ? "C15:binding-response-without-mi-accepted" : "C15:binding-request-without-mi-processed")
+                                                   : "C15:unauthenticated-" + d.integrity() + "-" + d.cls + "-has-effect", "via TURN relay: " + d.str() + " after " + history);
+        }
+    }
     static Dg mk0(const char *cls, const char *mi, unsigned long long txid) { Dg d; d.src = 9; d.cls = cls; d.mi = std::string(mi) + "+fp"; d.txid = txid; return d; }
 };
 
 static void drainAll()
 {
-    for (int i = 0; i < 4; i++) while (gSock[i]->hasPendingDatagrams()) { char c; gSock[i]->readDatagram(&c, 1); }
+    for (int i = 0; i < NSOCK; i++) while (gSock[i]->hasPendingDatagrams()) { char c; gSock[i]->readDatagram(&c, 1); }
 }
 
 struct Scenario {
-    bool ctl = false; int comp = 1;
+    bool ctl = false; int comp = 1; int stun = 0;
     std::vector<std::pair<std::string, Dg>> ops;   // op text; Dg valid when the text starts with "dg"
     void add(const std::string &s) { ops.push_back({ s, Dg() }); }
     void add(const Dg &d) { ops.push_back({ "dg", d }); }
@@ -541,17 +630,25 @@ struct Scenario {
 static std::vector<std::string> runScenario(const Scenario &sc, Rng &rng, int fuzz = 0)
 {
     drainAll();
-    Victim v(sc.ctl, sc.comp, rng);
-    corr("reset ctl=" + std::string(sc.ctl ? "1" : "0") + " comp=" + std::to_string(sc.comp), "ok");
-    v.history = std::string("ctl=") + (sc.ctl ? "1" : "0") + " comp=" + std::to_string(sc.comp) + ": ";
+    Victim v(sc.ctl, sc.comp, rng, sc.stun);
+    corr("reset ctl=" + std::string(sc.ctl ? "1" : "0") + " comp=" + std::to_string(sc.comp) + " stun=" + std::to_string(sc.stun), "ok");
+    v.history = std::string("ctl=") + (sc.ctl ? "1" : "0") + " comp=" + std::to_string(sc.comp) + " stun=" + std::to_string(sc.stun) + ": ";
+    if (sc.stun > 0) {
+        // the discovery requests leave at once: collect their transaction ids at the two server sockets
+        v.ag.clear(); v.settle();
+        for (int k = 0; k < sc.stun; k++) if (v.stx[k].isEmpty()) { oracleFail("C15:no-discovery-request-sent", v.history); }
+        if (v.ag.conn->gatheringState() != QXmppIceConnection::BusyGatheringState) oracleFail("C15:gathering-state-wrong", v.history + " (servers configured, not busy)");
+    }
+    int nextMapped = 60;
     for (const auto &o : sc.ops) {
         if (o.first == "dg") {
             Dg d = o.second;
             if (!d.app && d.txid == 999) d.txid = v.vtx.isEmpty() ? 1999 : (unsigned long long)(v.vtx.size() - 1);
+            if (!d.app && d.mapped < 0) d.mapped = nextMapped++;   // a fresh reflexive address for every server answer
             v.apply(d.str(), &d);
         } else v.apply(o.first);
     }
-    if (fuzz) v.fuzzTail(fuzz);
+    if (fuzz && !v.closedNow) { if (fuzz % 2) v.relayTail(fuzz); v.fuzzTail(fuzz); }
     stat("scenarios");
     if (v.ag.comp->isConnected()) stat("scenarios_ending_connected");
     pump(1);
@@ -597,11 +694,14 @@ static Scenario baseState(int which, bool ctl, int comp)
     case 7: s.add("creds"); s.add("addr 1 " + pr); s.add("connect"); s.add("timeout 0"); break;   // the only pair failed
     case 8: s.add("ruser"); s.add("addr 1 " + pr); s.add("connect"); break;      // remote user but NO remote password yet: check 0 in flight
     case 9: s.add("rpass"); s.add("addr 1 " + pr); s.add("connect"); break;      // remote password but no remote user: nothing is sent
+    case 11: s.add("creds"); s.add("addr 1 " + pr); s.add("connect"); s.add("rpass2"); break;   // remote password REPLACED while check 0 is in flight
+    case 12: s.add("creds"); s.add("addr 1 " + pr); s.add("connect");              // connected, then close()
+             s.add(mk(1, "req", "loc", 5000, !ctl, ctl ? 'd' : 'g', 1853817087ull, 1)); s.add(mk(1, "rsp", "rem", 0)); s.add("close"); break;
     case 10: s.add("ruser"); s.add("addr 1 " + pr); s.add("connect"); s.add("rtx 0"); s.add("rpass"); break;   // password arrives after the check started
     }
     return s;
 }
-static const int kBaseStates = 11;
+static const int kBaseStates = 13;
 
 static std::vector<Dg> reducedAlphabet(bool full)
 {
@@ -630,7 +730,9 @@ static std::vector<Dg> reducedAlphabet(bool full)
                                  "u+loc+fp", "u+u+rem", "u+bad", "sw+loc", "sw+rem", "u+sw+rem+fp", "loc+sw", "rem+sw+fp", "loc+fpbad", "rem+fpbad",
                                  "loc+u+fp", "rem+u+fp", "rem+u+fpbad", "u", "u+fp", "sw", "fpbad", "fp+fpbad+rem",
                                  // USE-CANDIDATE / PRIORITY behind a valid MESSAGE-INTEGRITY (appended by someone without the key) and in front of it
-                                 "loc+uc", "loc+uc+fp", "loc+pr4294967295+fp", "loc+uc+pr7+u+fp", "rem+uc+fp", "uc+loc+fp", "pr5+loc", "uc+fp+loc", "bad+uc" };
+                                 "loc+uc", "loc+uc+fp", "loc+pr4294967295+fp", "loc+uc+pr7+u+fp", "rem+uc+fp", "uc+loc+fp", "pr5+loc", "uc+fp+loc", "bad+uc",
+                                 // valid under a remote password that has been replaced (or never was the password)
+                                 "old", "old+fp", "u+old" };
     for (int src : { 1, 8 })
         for (const char *cls : clss)
             for (const char *lay : odd) {
@@ -667,10 +769,10 @@ static Dg randomDg(Rng &rng, int comp)
     d.mi = layoutOf(r < 25 ? "abs" : r < 55 ? valid : r < 65 ? other : r < 85 ? "bad" : "trunc");
     if (rng.below(4) == 0) {
         // a random layout of 1..5 integrity-relevant attributes in any order
-        static const char *toks[] = { "loc", "rem", "bad", "trunc", "fp", "fp", "fpbad", "u", "uc", "sw" };
+        static const char *toks[] = { "loc", "rem", "bad", "trunc", "old", "fp", "fp", "fpbad", "u", "uc", "sw" };
         std::string l;
         const int n = 1 + rng.below(5);
-        for (int i = 0; i < n; i++) { if (i) l += "+"; const unsigned k = rng.below(12); l += (k >= 10 ? valid : toks[k]); }
+        for (int i = 0; i < n; i++) { if (i) l += "+"; const unsigned k = rng.below(13); l += (k >= 11 ? valid : toks[k]); }
         d.mi = l;
     }
     if (isReq) d.txid = 1000 + rng.below(100000);
@@ -710,7 +812,7 @@ static void part1(const Args &a, Rng &rng)
             for (const Dg &d : alpha) {
                 Scenario s = baseState(b, ctl, comps[(b + ctl) % 3]);
                 s.add(d);
-                s.add("tick");
+                if (b != 12) s.add("tick"); else s.add("send 8001");
                 runScenario(s, rng);
             }
     // ---- every sequence of length `depth` over a small alphabet (datagrams + timer/time-out operations) from three base states
@@ -771,6 +873,35 @@ static void part1(const Args &a, Rng &rng)
                     stat("interleaved_scenarios");
                 }
         }
+    // ---- STUN-server discovery: every sequence of length 2 (3) over the server-path alphabet, 1 and 2 servers configured.
+    // (A success response WITHOUT a mapped address, or with an address that is already a local candidate, is kept out: today's code
+    //  then keeps a deleted transaction registered — see stunDiscoveryDefect() — and anything that follows is undefined behaviour.)
+    {
+        std::vector<Dg> sv;
+        auto S = [&](int src, const char *cls, const char *lay, unsigned long long tx, char method = 'b') { Dg d = mk(src, cls, lay, tx, false, 'n', 0, 0, method); d.mapped = -1; sv.push_back(d); };
+        S(5, "rsp", "fp", 500); S(8, "rsp", "-", 500); S(6, "rsp", "fp", 501); S(9, "rsp", "bad+fp", 501);
+        S(5, "err", "fp", 500); S(8, "err", "-", 501); S(5, "req", "fp", 500); S(8, "ind", "-", 500);
+        S(8, "rsp", "trunc", 500); S(8, "rsp", "fpbad", 500); S(8, "rsp", "sw", 501); S(5, "rsp", "fp", 500, 'o');
+        S(8, "rsp", "fp", 4242); S(8, "req", "-", 500);
+        const int depth = thorough ? 3 : 2;
+        for (int nst = 1; nst <= 2; nst++)
+            for (int tail = 0; tail < 2; tail++) {
+                std::vector<int> idx(depth, 0);
+                while (true) {
+                    Scenario s; s.ctl = tail; s.comp = comps[nst % 3]; s.stun = nst;
+                    for (int k : idx) s.add(sv[k]);
+                    // the peer side works as usual next to it
+                    s.add("creds"); s.add("addr 1 " + std::to_string(hostPrio(s.comp))); s.add("connect");
+                    if (tail) { s.add(mk(1, "req", "loc", 5000, !s.ctl, s.ctl ? 'd' : 'g', 1853817087ull, 1)); s.add(mk(1, "rsp", "rem", 0)); }
+                    { Dg late = mk(8, "rsp", "-", 500); late.mapped = -1; s.add(late); }
+                    runScenario(s, rng);
+                    stat("stun_server_sequences");
+                    int k = depth - 1;
+                    while (k >= 0 && ++idx[k] == (int)sv.size()) idx[k--] = 0;
+                    if (k < 0) break;
+                }
+            }
+    }
     // ---- tampering with GENUINE messages: someone on the path (no password) appends attributes behind the MESSAGE-INTEGRITY of an
     // authentic request/response (recomputing the FINGERPRINT, which needs no key).  Those bytes are not covered by the HMAC, so
     // the component must behave exactly as for the untampered message: the whole negotiation is run twice on the real component,
@@ -815,10 +946,25 @@ static void part1(const Args &a, Rng &rng)
     const int nrand = thorough ? 8000 : 1500;
     for (int i = 0; i < nrand; i++) {
         Scenario s; s.ctl = rng.coin(); s.comp = comps[rng.below(3)];
+        s.stun = rng.below(4) == 0 ? 1 + rng.below(2) : 0;
         const int len = 3 + rng.below(thorough ? 22 : 12);
-        bool connectDone = false;
+        bool connectDone = false, closed = false;
         for (int j = 0; j < len; j++) {
             unsigned r = rng.below(100);
+            if (closed) {   // after close() only datagrams and sendDatagram are exercised
+                if (r < 30) { QByteArray p(1 + rng.below(6), '\x80'); s.add(std::string("send ") + p.toHex().constData()); }
+                else s.add(randomDg(rng, s.comp));
+                continue;
+            }
+            if (j > 2 && rng.below(60) == 0) { s.add("close"); closed = true; continue; }
+            if (rng.below(50) == 0) { s.add("rpass2"); continue; }
+            if (s.stun && rng.below(6) == 0) {
+                static const char *lays[] = { "-", "fp", "bad", "fpbad", "trunc" };
+                static const char *clss[] = { "rsp", "rsp", "rsp", "err", "req" };
+                static const int srcs[] = { 5, 6, 8, 9 };
+                Dg d = mk(srcs[rng.below(4)], clss[rng.below(5)], lays[rng.below(5)], 500 + rng.below(2)); d.mapped = -1;
+                s.add(d); continue;
+            }
             if (r < 5) s.add("creds");
             else if (r < 7) s.add("ruser");
             else if (r < 8) s.add("rpass");
@@ -1053,13 +1199,54 @@ static void part2(const Args &a, Rng &rng)
     }
 }
 
+// Two STUN servers that report the SAME reflexive address (the normal case behind one NAT), or a success response without a mapped
+// address: QXmppIceComponent::transactionFinished returns early and leaves the transaction — which it has just scheduled for
+// deletion — registered in stunTransactions.  Consequences: (1) gathering never completes; (2) the next STUN message of any kind
+// makes handleDatagram call request() on the deleted object (heap-use-after-free).  (1) is checked in-process without touching
+// the dangling entry; (2) in a child process, because it is undefined behaviour (the sanitizer aborts the child).
+static bool stunDiscoveryScenario(Rng &rng, bool thenAnyStunMessage)
+{
+    drainAll();
+    Victim v(false, 1, rng, 2);
+    v.ag.clear(); v.settle();
+    if (v.stx[0].isEmpty() || v.stx[1].isEmpty()) return true;
+    for (int k = 0; k < 2; k++) {
+        Dg d = mk(5 + k, "rsp", "fp", 500 + k); d.mapped = 60;      // both servers: "you are 10.0.0.60:4060"
+        gSock[4 + k]->writeDatagram(forge(d, v.creds, v.vtx, QHostAddress(LOOP), v.ag.port(), rng, v.stx), QHostAddress(LOOP), v.ag.port());
+        v.ag.clear(); v.settle();
+    }
+    const bool complete = v.ag.conn->gatheringState() == QXmppIceConnection::CompleteGatheringState;
+    if (thenAnyStunMessage) {
+        Dg q = mk(8, "req", "-", 7000);
+        gSock[2]->writeDatagram(forge(q, v.creds, v.vtx, QHostAddress(LOOP), v.ag.port(), rng, v.stx), QHostAddress(LOOP), v.ag.port());
+        v.settle();
+    }
+    return complete;
+}
+
+static void stunDiscoveryDefect(const char *argv0, Rng &rng)
+{
+    const std::string replay = "2 STUN servers configured; server 1 answers XOR-MAPPED-ADDRESS 10.0.0.60:4060; server 2 answers the same address";
+    if (stunDiscoveryScenario(rng, false)) oraclePass()++;
+    else oracleFail("C15:stun-discovery-never-completes", replay + " => gathering state stays 'gathering', the finished transaction stays registered");
+    fflush(stdout);
+    const std::string cmd = std::string(argv0) + " --mode uafprobe >/dev/null 2>&1";
+    const int st = system(cmd.c_str());
+    stat("uafprobe_status", st);
+    if (st == 0) oraclePass()++;
+    else oracleFail("C15:stun-discovery-use-after-free", replay + "; then any STUN message arrives => child process ended abnormally (status " + std::to_string(st) +
+                    "): handleDatagram dereferences the deleted transaction");
+}
+
 int main(int argc, char **argv)
 {
     QCoreApplication app(argc, argv);
     Args a = parseArgs(argc, argv);
-    for (int i = 0; i < 4; i++) { gSock[i] = new QUdpSocket; if (!gSock[i]->bind(QHostAddress(LOOP), 0)) { fprintf(stderr, "cannot bind\n"); return 3; } }
+    for (int i = 0; i < NSOCK; i++) { gSock[i] = new QUdpSocket; if (!gSock[i]->bind(QHostAddress(LOOP), 0)) { fprintf(stderr, "cannot bind\n"); return 3; } }
     gMarker = new QUdpSocket; gMarker->bind(QHostAddress(LOOP), 0);
     Rng rng(a.seed);
+    if (a.mode == "uafprobe") { stunDiscoveryScenario(rng, true); return 0; }
+    if (a.mode != "pairs") stunDiscoveryDefect(argv[0], rng);
     QElapsedTimer el; el.start();
     if (a.mode != "pairs") part1(a, rng);
     stat("part1_ms", el.elapsed());
